@@ -1,6 +1,7 @@
 package checks
 
 import (
+	"sync"
 	"bytes"
 	"errors"
 	"fmt"
@@ -40,6 +41,10 @@ type bundle struct {
 	MetaIdx  []string
 	idxLogT  []gow.Triple
 	idxRevT  []gow.Triple
+	// default-options read restricted to one topic, for every topic of the scan in sorted order
+	Topics   []string
+	TopicGot [][]string
+	TopicErr []string
 }
 
 func tripleKey(t gow.Triple) string {
@@ -171,6 +176,27 @@ func readBundle(b []byte) *bundle {
 			bu.IdxRev, bu.idxRevT = keys(ir.Triples), ir.Triples
 		}
 	}
+	{
+		seen := map[string]bool{}
+		for _, t := range scan.Triples {
+			if !seen[t.C.Topic] {
+				seen[t.C.Topic] = true
+				bu.Topics = append(bu.Topics, t.C.Topic)
+			}
+		}
+		sort.Strings(bu.Topics)
+		for _, topic := range bu.Topics {
+			tr := gow.Iterate(bytes.NewReader(b), gow.NextIntoNil, false, nil, 0, mcap.WithTopics([]string{topic}))
+			switch {
+			case tr.Panic != "":
+				bu.TopicErr, bu.TopicGot = append(bu.TopicErr, "panic: "+tr.Panic), append(bu.TopicGot, nil)
+			case tr.Failed() != nil:
+				bu.TopicErr, bu.TopicGot = append(bu.TopicErr, tr.Failed().Error()), append(bu.TopicGot, nil)
+			default:
+				bu.TopicErr, bu.TopicGot = append(bu.TopicErr, ""), append(bu.TopicGot, keys(tr.Triples))
+			}
+		}
+	}
 	func() {
 		defer func() {
 			if p := recover(); p != nil {
@@ -255,6 +281,8 @@ func diffBundle(a, b *bundle) string {
 		return fmt.Sprintf("Info statistics %+v vs %+v", a.Stats, b.Stats)
 	case a.NChan != b.NChan || a.NSch != b.NSch || a.NChunk != b.NChunk:
 		return fmt.Sprintf("Info listings (%d,%d,%d) vs (%d,%d,%d)", a.NChan, a.NSch, a.NChunk, b.NChan, b.NSch, b.NChunk)
+	case !reflect.DeepEqual(a.TopicErr, b.TopicErr) || !reflect.DeepEqual(a.TopicGot, b.TopicGot):
+		return "topic-filtered default read"
 	case !reflect.DeepEqual(a.AttIdx, b.AttIdx):
 		return "attachments via index"
 	case !reflect.DeepEqual(a.MetaIdx, b.MetaIdx):
@@ -326,6 +354,7 @@ type layoutSpec struct {
 	placement int // 0 top level before first chunk | 1 inside first chunk | 2 repeated in every chunk | 3 before every message
 	order     []byte
 	opt       int // bit set of optional parts
+	noRepeat  int // bit 0: the summary does not repeat schema records; bit 1: nor channel records
 }
 
 const (
@@ -384,7 +413,7 @@ func (l *logical) encode(ls *layoutSpec) []byte {
 		add(ref.RMetadata(l.meta))
 	}
 	lay := ref.Layout{
-		MessageIndex: ls.opt&oMsgIndex != 0, ChunkIndex: true, RepeatSchemas: true, RepeatChannels: true,
+		MessageIndex: ls.opt&oMsgIndex != 0, ChunkIndex: true, RepeatSchemas: ls.noRepeat&1 == 0, RepeatChannels: ls.noRepeat&2 == 0,
 		Statistics: ls.opt&oStats != 0, SummaryOffsets: ls.opt&oSumOffsets != 0, AttachmentIndex: ls.opt&oAttIndex != 0, MetadataIndex: ls.opt&oMetaIndex != 0,
 		ChunkCRC: ls.opt&oChunkCRC != 0, DataCRC: ls.opt&oDataCRC != 0, SummaryCRC: ls.opt&oSummaryCRC != 0, GroupOrder: ls.order,
 	}
@@ -501,7 +530,51 @@ func c12Oracle(l *logical, ls *layoutSpec, bu *bundle) *explore.Verdict {
 	if bu.ScanMeta != wantMeta {
 		return vio("C12:scan-metadata", "metadata callback saw %d records, content has %d", bu.ScanMeta, wantMeta)
 	}
-	if ls.partition != nil {
+	// a topic selection through the default (index-preferring) read: exactly that topic's messages;
+	// an error is acceptable only where the summary lacks what an indexed read relies on
+	for ti, topic := range bu.Topics {
+		if bu.TopicErr[ti] != "" {
+			if ls.noRepeat == 0 {
+				return vio("C12:topic-read-error", "Messages(WithTopics(%q)) failed on a legal layout: %s", topic, bu.TopicErr[ti])
+			}
+			continue
+		}
+		var wt []string
+		for i, t := range want {
+			if t.C.Topic == topic {
+				wt = append(wt, wk[i])
+			}
+		}
+		if !reflect.DeepEqual(bu.TopicGot[ti], wt) {
+			sig := "C12:topic-read-content"
+			if len(bu.TopicGot[ti]) < len(wt) {
+				sig = "C12:topic-read-silent-loss"
+			}
+			return vio(sig, "Messages(WithTopics(%q)) returned %d messages, the content has %d on that topic", topic, len(bu.TopicGot[ti]), len(wt))
+		}
+	}
+	if ls.partition != nil && ls.noRepeat != 0 {
+		// the summary does not repeat schemas and/or channels: index-based reads may refuse, but what
+		// they return must be the content (never a silent subset)
+		for i, got := range [][]string{bu.IdxFile, bu.IdxLog, bu.IdxRev} {
+			if bu.IdxErr[i] != "" {
+				continue
+			}
+			a, w := append([]string(nil), got...), append([]string(nil), wk...)
+			if i > 0 {
+				sort.Strings(a)
+				sort.Strings(w)
+			}
+			if !reflect.DeepEqual(a, w) {
+				sig := "C12:indexed-content"
+				if len(a) < len(w) {
+					sig = "C12:indexed-silent-loss"
+				}
+				return vio(sig, "indexed read (order %d) on a summary without repeated records returned %d messages, the content has %d", i, len(a), len(w))
+			}
+		}
+	}
+	if ls.partition != nil && ls.noRepeat == 0 {
 		for i, e := range bu.IdxErr {
 			if e != "" {
 				sig := "C12:indexed-error"
@@ -550,8 +623,15 @@ func c12Oracle(l *logical, ls *layoutSpec, bu *bundle) *explore.Verdict {
 			return vio(sig, "Info lists %d chunk indexes, the file has %d chunks", bu.NChunk, nch)
 		}
 	}
-	if bu.NChan != len(l.channels) || bu.NSch != len(l.schemas) {
-		return vio("C12:info-listings", "Info lists %d channels / %d schemas, content has %d / %d", bu.NChan, bu.NSch, len(l.channels), len(l.schemas))
+	wantChan, wantSch := len(l.channels), len(l.schemas)
+	if ls.noRepeat&1 != 0 {
+		wantSch = 0
+	}
+	if ls.noRepeat&2 != 0 {
+		wantChan = 0
+	}
+	if bu.NChan != wantChan || bu.NSch != wantSch {
+		return vio("C12:info-listings", "Info lists %d channels / %d schemas, the summary keeps %d / %d", bu.NChan, bu.NSch, wantChan, wantSch)
 	}
 	if ls.opt&oStats != 0 {
 		if bu.Stats == nil {
@@ -587,7 +667,7 @@ func c12Oracle(l *logical, ls *layoutSpec, bu *bundle) *explore.Verdict {
 }
 
 func (ls *layoutSpec) String() string {
-	return fmt.Sprintf("partition=%v comps=%q placement=%d groups=%v optional=%08b", ls.partition, ls.comps, ls.placement, ls.order, ls.opt)
+	return fmt.Sprintf("partition=%v comps=%q placement=%d groups=%v optional=%08b norepeat=%02b", ls.partition, ls.comps, ls.placement, ls.order, ls.opt, ls.noRepeat)
 }
 
 // c12Body enumerates dimension pairs: two dimensions vary fully, the others sit at one of two bases.
@@ -686,10 +766,58 @@ func c12Body(fullProduct bool, thorough bool) explore.Body {
 	}
 }
 
+// c12NoRepeatBody enumerates layouts whose summary does not repeat the schema and/or channel
+// records (chunk indexes kept): legal files on which index-based reads may refuse but must never
+// return a silent subset, and on which sequential reads and Info must be unaffected.
+func c12NoRepeatBody() explore.Body {
+	contents := logicalContents()
+	return func(x *explore.Ctx) *explore.Verdict {
+		l := contents[x.Choose("op", len(contents))]
+		parts := partitions(len(l.msgs))
+		ls := &layoutSpec{}
+		ls.partition = parts[x.Choose("layout", len(parts))]
+		ls.comps = make([]string, len(ls.partition))
+		ls.placement = x.Choose("layout", 4)
+		ls.noRepeat = 1 + x.Choose("layout", 3)
+		ls.opt = x.Choose("layout", 4) | oSumOffsets | oAttIndex | oMetaIndex | oChunkCRC // message index and statistics vary
+		ls.order = [][]byte{ref.GoGroupOrder, ref.TSGroupOrder}[x.Choose("layout", 2)]
+		b := l.encode(ls)
+		x.Ops += len(l.msgs)
+		x.State = explore.Hash(b)
+		x.Note = func() any { return map[string]any{"content": l.name, "layout": ls.String()} }
+		if probs := ref.Validate(ref.Decode(b, true), ref.Expect{}); len(probs) > 0 {
+			panic(explore.HarnessError{Msg: fmt.Sprintf("reference encoder emitted a layout its own validator rejects: %s (%s)", probs[0].Msg, ls)})
+		}
+		// different points of the pair enumeration emit byte-identical files (three quarters of the
+		// executions): a file that already passed in this process is not read again
+		c12Mu.Lock()
+		_, done := c12Passed[x.State]
+		c12Mu.Unlock()
+		if done {
+			return nil
+		}
+		bu := readBundle(b)
+		if v := c12Oracle(l, ls, bu); v != nil {
+			v.Msg += " — content " + l.name + " — layout " + ls.String()
+			return v
+		}
+		c12Mu.Lock()
+		c12Passed[x.State] = struct{}{}
+		c12Mu.Unlock()
+		return nil
+	}
+}
+
+var (
+	c12Mu     sync.Mutex
+	c12Passed = map[uint64]struct{}{}
+)
+
 // C12: readers return the same content for every legal layout of it.
 func C12(r *chk.Run) {
-	r.Rule("3 logical contents (<=4 messages on <=2 channels, shared schema / schemaless, attachment, metadata); layout dimensions: (a) every composition of the message sequence into chunks, each also with an empty chunk at every position, plus unchunked; (b) every per-chunk compression assignment over {none,zstd,lz4}; (c) 4 schema/channel placements; (d) all 720 orders of the six summary groups; (e) all 256 subsets of {message index, statistics, summary offsets, attachment index, metadata index, chunk CRC, data CRC, summary CRC}; quick: every pair of dimensions varied fully with the other three at each of two base settings; thorough adds the full product for the 1-message and 3-message contents; every emitted file is first validated by the reference validator; distinct = distinct files")
-	r.Assume("chunk indexes and repeated schema/channel records are always kept so that indexed reads can be compared; ties across chunks in time order are unconstrained")
+	r.Rule("3 logical contents (<=4 messages on <=2 channels, shared schema / schemaless, attachment, metadata); layout dimensions: (a) every composition of the message sequence into chunks, each also with an empty chunk at every position, plus unchunked; (b) every per-chunk compression assignment over {none,zstd,lz4}; (c) 4 schema/channel placements; (d) all 720 orders of the six summary groups; (e) all 256 subsets of {message index, statistics, summary offsets, attachment index, metadata index, chunk CRC, data CRC, summary CRC}; quick: every pair of dimensions varied fully with the other three at each of two base settings; thorough adds the full product for the 1-message and 3-message contents; every reader bundle includes a default-options read restricted to each topic; a further phase enumerates every partition x placement x {schemas, channels, both} NOT repeated in the summary x {message index, statistics} subsets x 2 group orders, where index-based and topic-filtered reads may refuse but must never return a silent subset; every emitted file is first validated by the reference validator; distinct = distinct files")
+	r.Assume("chunk indexes are always kept, and repeated schema/channel records are kept wherever indexed reads are required to succeed; ties across chunks in time order are unconstrained")
+	r.Phase("summary-without-repeated-records", c12NoRepeatBody(), chk.PhaseOpts{Share: 0.2, SplitLen: 3})
 	r.Phase("all-pairs-of-dimensions", c12Body(false, r.Thorough()), chk.PhaseOpts{Share: 0.7, SplitLen: 4})
 	if r.Thorough() && r.TimeLeft() {
 		r.Phase("full-product", c12Body(true, true), chk.PhaseOpts{SplitLen: 5})
